@@ -461,12 +461,41 @@ func runReplay(a map[string]string) {
 
 func runLines(h *harness, lines []string, emit func(op, res string)) {
 	var blk *block
+	var pending []string // rtx lines of a real-loop block, executed at `rend`
 	for _, line := range lines {
 		line = strings.TrimSpace(line)
 		if line == "" || strings.HasPrefix(line, "#") {
 			continue
 		}
 		t := strings.Fields(line)
+		if t[0] == "rtx" && blk != nil {
+			t[0] = "tx"
+			if tx, err := parseTx(t, blk); err == nil {
+				tx.rootID = 60000 + len(blk.txs)
+				blk.txs = append(blk.txs, tx)
+				pending = append(pending, line)
+				continue
+			}
+			emit(line, "bad-op")
+			continue
+		}
+		if t[0] == "rend" && blk != nil {
+			var answers []string
+			var end string
+			if p := hx.Guard(func() string { answers, end = h.runRealBlock(blk); return "" }); p != "" {
+				end = p
+			}
+			for i, l := range pending {
+				a := "?"
+				if i < len(answers) {
+					a = answers[i]
+				}
+				emit(l, a)
+			}
+			emit(line, end)
+			pending = nil
+			continue
+		}
 		res := hx.Guard(func() string {
 			switch t[0] {
 			case "reset":
